@@ -4,11 +4,15 @@ EXTENDS TimeAlloc
 \* ---- generator (spec -> code): one chain per (inc, movestogo, ply, side); remaining times increasing
 CONSTANT RandomRems, RandomClocks     \* extra seeded values per chain / extra seeded (inc, mtg, ply) combinations
 VARIABLE chain
-GInit == chain \in ({<<i, m, p, s>> : i \in IncBoundary, m \in MtgBoundary, p \in PlyBoundary, s \in {0, 1}}
+\* every game ply once: the importance curve and everything keyed on the ply is read at each of its arguments
+PlySweep == {<<i, m, p, s>> : i \in {0, 2000}, m \in {0, 40}, p \in 0..1000, s \in {0, 1}}
+SweepRems == {0, 1, 1000, 60000, 300000, 3600000}
+GInit == chain \in (PlySweep \cup {<<i, m, p, s>> : i \in IncBoundary, m \in MtgBoundary, p \in PlyBoundary, s \in {0, 1}}
                     \cup {<<i, m, p, s>> : i \in RandomSubset(RandomClocks, 0..600000), m \in RandomSubset(3, 0..200), p \in RandomSubset(3, 0..1000), s \in {0, 1}})
 GNext == UNCHANGED chain
 \* +1, +10%, x2 steps around every boundary value, plus seeded values
 Rems == LET base == RemBoundary \cup RandomSubset(RandomRems, 0..DAY)
         IN {r \in base \cup {b + 1 : b \in base} \cup {b + b \div 10 : b \in base} \cup {2 * b : b \in base} : r <= DAY}
-GEmit == PrintT("CLK " \o ToString(chain[1]) \o " " \o ToString(chain[2]) \o " " \o ToString(chain[3]) \o " " \o ToString(chain[4]) \o " | " \o Join(SortedSeq(Rems)))
+GEmit == PrintT("CLK " \o ToString(chain[1]) \o " " \o ToString(chain[2]) \o " " \o ToString(chain[3]) \o " " \o ToString(chain[4]) \o " | "
+                \o Join(SortedSeq(IF chain \in PlySweep /\ chain[3] \notin PlyBoundary THEN SweepRems ELSE Rems)))
 =============================================================================
